@@ -10,6 +10,7 @@ import (
 	"net/http"
 	"net/http/httptest"
 	"strings"
+	"sync/atomic"
 	"testing"
 	"time"
 	"unicode/utf8"
@@ -140,13 +141,21 @@ type rigT struct {
 
 var compNames = []string{"none", "zlib", "lz4"}
 
+// refuseFirst: that many data requests are answered 503 before the ingesting server sees anything (an overloaded
+// upstream); retries are enabled then, and what finally arrives must still be what the forwarder was given.
+var refuseFirst int32
+
 func newRig(t vt.TB, comp string, level, slots int) *rigT {
 	r := &rigT{sink: fakes.NewSink(), rt: fakes.NewRT(), fc: verifhooks.NewFlushCoordinator()}
 	srv, err := web.NewHttpServer(logrus.StandardLogger(), r.sink, "verif", "127.0.0.1:0", false, false, true, false, nil, nil)
 	if err != nil {
 		t.Fatalf("%v", err)
 	}
+	refused := atomic.LoadInt32(&refuseFirst)
 	r.rt.Script = func(a *fakes.Attempt) fakes.Reply {
+		if len(a.Body) > 0 && atomic.AddInt32(&refused, -1) >= 0 {
+			return fakes.Reply{Status: 503, Body: []byte("busy")}
+		}
 		req := httptest.NewRequest(a.Method, a.URL, bytes.NewReader(a.Body))
 		req.Header = a.Header.Clone()
 		rec := httptest.NewRecorder()
@@ -160,7 +169,7 @@ func newRig(t vt.TB, comp string, level, slots int) *rigT {
 	if comp == "none" {
 		ctype = "none"
 	}
-	r.fwd, err = statsd.NewHttpForwarderHandlerV2(logrus.StandardLogger(), "default", "http://upstream.invalid", slots, 4, 1, comp != "none", ctype, level, -1, time.Hour, nil, nil, pool, r.fc)
+	r.fwd, err = statsd.NewHttpForwarderHandlerV2(logrus.StandardLogger(), "default", "http://upstream.invalid", slots, 4, 1, comp != "none", ctype, level, retryWindow(), time.Hour, nil, nil, pool, r.fc)
 	if err != nil {
 		t.Fatalf("forwarder: %v", err)
 	}
@@ -168,6 +177,13 @@ func newRig(t vt.TB, comp string, level, slots int) *rigT {
 	r.cancel, r.done = cancel, make(chan struct{})
 	go func() { r.fwd.Run(ctx); close(r.done) }()
 	return r
+}
+
+func retryWindow() time.Duration {
+	if atomic.LoadInt32(&refuseFirst) > 0 {
+		return 3 * time.Second
+	}
+	return -1
 }
 
 func (r *rigT) close() {
@@ -183,6 +199,10 @@ func TestRoundTrip(t *testing.T) {
 		comp := rapid.SampledFrom(compNames).Draw(t, "compression")
 		level := rapid.IntRange(0, 9).Draw(t, "level")
 		slots := rapid.IntRange(1, 3).Draw(t, "slots")
+		atomic.StoreInt32(&refuseFirst, 0)
+		if rapid.IntRange(0, 63).Draw(t, "refused-first") == 61 { // rarely: every refusal costs real back-off time
+			atomic.StoreInt32(&refuseFirst, int32(rapid.IntRange(1, 2).Draw(t, "refusals")))
+		}
 		r := newRig(t, comp, level, slots)
 		defer r.close()
 		maps := rapid.SliceOfN(mapGen(), 1, 3).Draw(t, "maps")
